@@ -42,7 +42,8 @@ ASSUMPTIONS = [
     'the solver only chooses the case',
 ]
 
-_WORK = os.path.join(VERIF, 'work', 'C12', str(os.getpid()))
+_WORK = os.path.join(os.environ.get('VERIF_OUT') or VERIF, 'work', 'C12',
+                     str(os.getpid()))
 _BAD_DOCS = ['', 'a: [1, 2', '- x\n- y\n', 'a: 1\na: 2\n', '{a: 1}',
              '? [a]\n: 1\n', '&a [*a]', 'x: !!int abc', '%YAML 1.1\n---\n1',
              'é: ü\n', '"\\ud83d\\ude42"', 'a: b: c']
